@@ -1,8 +1,8 @@
 CONSTANTS
   Family = "text"
-  Unit = "bytes"
-  MaxOps = 6
-  Shape <- NoShape
+  Unit = "utf16"
+  MaxOps = 4
+  Shape <- ShapeFmt4
 SPECIFICATION Spec
 INVARIANTS InvWellFormed InvUniqueTags PrintSchedules
 CHECK_DEADLOCK FALSE
